@@ -53,6 +53,18 @@ CLAIMED = {
  "C19": ("reference-model monitor with unique-tag bindings",
          "45 canonical scope shapes and seeded random nestings (depth 3-4) bind unique tagged literals or the id of the current node, so each result identifies the binding and the context that were captured; every outcome is compared with the reference model's lexical environments, incl. undefined-variable errors only where the reference is evaluated.",
          "Trusts the reference model's environments (50 lines); calibrated on letexpr.json.", "§6 C19"),
+ "C06": ("history monitor: per-call comparison with fresh evaluation + deep snapshots (capacity-tail canaries, container identities) + AST fingerprint hook",
+         "Histories of 3-8 Expression.Search calls over 2-4 documents with repeats are checked call by call: outcome = fresh one-shot Search on a deep copy, every document byte-for-byte as snapshotted (incl. sentinel values in the unused capacity of every slice), AST fingerprint unchanged (hook VerifASTFingerprint), every earlier result still equal to its snapshot; MustCompile panics exactly when Compile fails.",
+         "Aliasing between a result and its input is allowed; only writes are violations. Enumerating expressions are compared through the model (unordered-aware).", "§6 C06"),
+ "C07": ("Go race detector (happens-before) over a barrier-released concurrent workload in fresh processes + per-call equality with the sequential outcome + AST fingerprint hook",
+         "Worker built with -race; in each fresh process ~220 shared compiled expressions and 20 shared read-only documents are hammered by 2-64 goroutines (GOMAXPROCS 2/4/16) mixing Search, Compile+Search and sharedExpression.Search; every race-detector report, every outcome differing from the precomputed sequential outcome, and every change to a shared Expression (fingerprint) or document (deep snapshot) is a violation.",
+         "Only interleavings actually produced are judged; races on AST node types not covered by the shared expressions are not seen (coverage counted in the evidence). porcupine/gofail do not apply: there is no shared mutable object or critical section in the library.", "§6 C07"),
+ "C08": ("contract invariants on every failing call + reference-model fault analysis + Compile/Search/document metamorphic checks",
+         "Failing texts generated per category and site (every wrong arity of every builtin, unknown names, expression-reference position faults at every position, a wrong type at every argument position, every invalid-value site, undefined variables at every kind of site, division by zero/overflow, two-fault combinations, syntax faults, mutated expressions) are run through Compile, Search and Expression.Search on 9 documents: nil result with the error, exactly one exported category, category = the model's (or within its fault set), same static fault from Compile and from Search on every document, no static fault from a compiled Expression.",
+         "Which of several simultaneous faults is reported is not judged beyond membership in the model's fault set.", "§6 C08"),
+ "C15": ("online repetition monitor with rebuilt maps + offline cross-process comparison of recorded outcome digests + AST fingerprint hook",
+         "Each (expression, document) is evaluated 20/100 times per process on independently rebuilt maps (shuffled insertion, capacity hints, churn), alternately through Search and fresh Compile, in 4/16 fresh processes; outcomes must agree within a process (online) and across processes (offline checker over the merged event logs), AST fingerprints too; strict comparison for order-free expressions, multiset comparison for enumerating ones.",
+         "Enumerating expressions are judged only when the model confirms no order-sensitive consumer is reached; a dependence needing a particular hash seed may need more processes (distinct member orders actually seen are counted).", "§6 C15"),
 }
 
 ALL = ["C%02d" % i for i in range(1, 21)]
